@@ -661,6 +661,23 @@ static Reg r_rhdatanhee("rh_datanhee", [](const Args& a) {
 
 // ---- generators -------------------------------------------------------------------------------------------------
 static double pw(Rng& r, int lo, int hi) { return std::pow(10.0, r.range(lo, hi)); }
+// ---- exact rhumb area on strongly eccentric ellipsoids: an east-west course along a parallel bounds a zone whose area is elementary --
+// rh_zone <a> <f> <lat> <dlon>: S12 of Rhumb(a, f, exact = true).Inverse(lat, 0, lat, dlon) against
+//   (b^2 / 2) * dlon * [ sin(phi) / (1 - e2 sin^2 phi) + atanh(e sin phi) / e ]      (atan for e2 < 0)
+// in long double; relative tolerance 2e-8 of the zone (the exact-mode area comes from an adaptive fit; the unchanged library is at 1e-9)
+static Reg r_rhzone("rh_zone", [](const Args& a) {
+  double ea = unhx(a[0]), f = unhx(a[1]), lat = unhx(a[2]), dlon = unhx(a[3]);
+  Rhumb R(ea, f, true); double s12, azi, S12 = std::nan("");
+  std::string e = guarded([&] { R.Inverse(lat, 0, lat, dlon, s12, azi, S12); });
+  emit(e.empty() ? hx(S12) : e);
+  if (!e.empty()) { bad("rhumb-zone-area", "Rhumb(exact).Inverse throws on a parallel: " + e); return; }
+  typedef long double LD; LD e2 = (LD)f * (2 - (LD)f), b = (LD)ea * (1 - (LD)f), sp = sinl((LD)lat * 3.141592653589793238462643383279502884L / 180);
+  LD ee = sqrtl(fabsl(e2)), q = sp / (1 - e2 * sp * sp) + (e2 == 0 ? sp : (e2 > 0 ? atanhl(ee * sp) : atanl(ee * sp)) / ee);
+  LD zone = b * b / 2 * ((LD)dlon * 3.141592653589793238462643383279502884L / 180) * q;
+  if (!(std::fabs((double)((LD)S12 - zone)) <= 2e-8 * std::fabs((double)zone) + 1e-8 * (double)(b * b)))
+    bad("rhumb-zone-area", "S12 along the parallel " + std::to_string(lat) + " over " + std::to_string(dlon) + " deg on f = " + std::to_string(f) + ": " + std::to_string(S12) + " vs the zone area " + std::to_string((double)zone));
+});
+
 void gv::generate(const std::string& tier, uint64_t seed) {
   Rng r(seed * 9176 + 11);
   long n = tier == "thorough" ? 15000 : 900;
@@ -683,6 +700,14 @@ void gv::generate(const std::string& tier, uint64_t seed) {
   };
   for (const EF& e0 : ell) if (e0.modes != 2) { run("rh_const", {H(e0.a), H(e0.f)}); stratum("model-const"); }
   for (double f0 : {0.0033, -0.0033, 1e-9, 0.006, -0.009}) { run("rh_const", {H(6.4e6 * (1 + f0)), H(f0)}); stratum("model-const"); }
+  // exact area on strongly eccentric ellipsoids (third flattening n up to +-0.9; at n = 0.95 the unchanged library itself is only good to
+  // 5e-8 of the zone next to the equator, and no accuracy is documented there, so no claim is made beyond 0.9)
+  for (double n3 : {0.0, 0.0016792, 0.3, -0.3, 0.6, -0.6, 0.8, -0.8, 0.9, -0.9}) {
+    double f0 = 2 * n3 / (1 + n3);
+    for (int j = 0; j < (tier == "thorough" ? 12 : 3); ++j) {
+      run("rh_zone", {H(r.coin() ? 6.4e6 : 1.0), H(f0), H((r.coin() ? 1 : -1) * r.range(1, 89)), H(r.pick(std::vector<double>{10, 90, 179, -45, 1}))});
+      stratum("zone-area-exact"); }
+  }
   for (long i = 0; i < n; ++i) {
     EF e = r.pick(ell); bool exact = e.modes == 2 ? true : (e.modes == 1 ? false : r.coin());
     std::string A = H(e.a), F = H(e.f), X = exact ? "1" : "0";
